@@ -44,13 +44,15 @@ __CPROVER_assigns(ITEM_VALUE_FIELDS(item), input_buffer->offset, GHOST_ALLOC, GH
 PV_LOG_CV(parse_value_cv, D_VALUE, 1)
 PV_LOG_CV(parse_string_cv, D_STRING, (item->type == cJSON_String && __CPROVER_is_fresh(item->valuestring, 1)))
 
-/* cJSON_Delete as a callee of a failing container parse: releases every node reachable from its argument through next (up to KMAX) */
-#define R1(i) (i)
-#define R2(i) ((i) != NULL ? __CPROVER_old((i)->next) : NULL)
-#define CHAIN_HAS(i, p) ((p) != NULL && ((p) == (void*)(i) || ((i)->next != NULL && ((p) == (void*)(i)->next || ((i)->next->next != NULL && ((p) == (void*)(i)->next->next || ((i)->next->next->next != NULL && (p) == (void*)(i)->next->next->next)))))))
+/* cJSON_Delete as a callee of a failing container parse.  Its precondition demands that the chain handed over starts at the first node
+ * and links EVERY node allocated so far (so a node that was allocated but not linked is reported, not silently leaked);
+ * then all of them are released (cJSON_Delete's own unit) and the tracked block, if it was one of them, is gone. */
+#define LAST_NODE (g_nit_calls == 1 ? g_n0 : g_nit_calls == 2 ? g_n1 : g_nit_calls == 3 ? g_n2 : g_n3)
 CJSON_PUBLIC(void) cJSON_Delete_chain_cv(cJSON *item)
-__CPROVER_requires(item != NULL && __CPROVER_rw_ok(item, sizeof(cJSON)) && (item->next == NULL || (__CPROVER_rw_ok(item->next, sizeof(cJSON)) && (item->next->next == NULL || (__CPROVER_rw_ok(item->next->next, sizeof(cJSON)) && (item->next->next->next == NULL || (__CPROVER_rw_ok(item->next->next->next, sizeof(cJSON)) && item->next->next->next->next == NULL)))))))
-__CPROVER_ensures(g_live == (CHAIN_HAS(item, __CPROVER_old(g_live)) ? NULL : __CPROVER_old(g_live)))
+__CPROVER_requires(g_nit_calls >= 1 && g_nit_calls <= 4 && item == g_n0)
+__CPROVER_requires((g_nit_calls < 2 || g_n0->next == g_n1) && (g_nit_calls < 3 || g_n1->next == g_n2) && (g_nit_calls < 4 || g_n2->next == g_n3) && LAST_NODE->next == NULL)
+__CPROVER_ensures(g_live == ((__CPROVER_old(g_live) != NULL && (__CPROVER_old(g_live) == (void*)g_n0 || (g_nit_calls >= 2 && __CPROVER_old(g_live) == (void*)g_n1) ||
+    (g_nit_calls >= 3 && __CPROVER_old(g_live) == (void*)g_n2) || (g_nit_calls >= 4 && __CPROVER_old(g_live) == (void*)g_n3))) ? NULL : __CPROVER_old(g_live)))
 __CPROVER_ensures(g_del_arg == item && g_del_calls == __CPROVER_old(g_del_calls) + 1 && g_hook_allocs == __CPROVER_old(g_hook_allocs) && C14_POST(global_hooks))
 __CPROVER_assigns(GHOST_ALLOC, GHOST_DEL);
 #endif
@@ -122,4 +124,32 @@ __CPROVER_ensures((!RET && g_nit_calls >= 1) ==> (g_del_calls == 1 && g_del_arg 
 __CPROVER_ensures((!RET && g_nit_calls == 0) ==> g_del_calls == 0) /*@C07*/
 __CPROVER_ensures(RET ==> (g_live == NULL || g_live == (void*)g_n0 || g_live == (void*)g_n1)) /*@C08*/
 __CPROVER_assigns(PARSE_ASSIGNS(item, input_buffer), GHOST_CONT, GHOST_DEL);
+#endif
+
+/* ================================================================== cJSON_Delete (skeleton, chain <= 2 nodes; C07)
+ * --enforce-contract-rec: the recursive call on a child is cut by the contract itself.  Children are opaque tokens (arbitrary non-NULL
+ * pointers that are never dereferenced): for a token argument the contract only logs the call - that is the induction hypothesis for an
+ * arbitrary subtree; for a concrete chain it states what happens to every node. */
+#ifdef VF_ENF_cJSON_Delete
+cJSON *g_tok1, *g_tok2;
+cJSON *g_dlog[4]; size_t g_dlogn;
+#define IS_TOK(p) ((p) == g_tok1 || (p) == g_tok2)
+#define DNODE_OK(n) (__CPROVER_is_fresh(n, sizeof(cJSON)) && ((n)->valuestring == NULL || __CPROVER_is_fresh((n)->valuestring, 1)) && ((n)->string == NULL || __CPROVER_is_fresh((n)->string, 1)) && ((n)->child == NULL || IS_TOK((n)->child)))
+#define OWNS_VS(t) (!((t) & cJSON_IsReference))
+#define OWNS_KEY(t) (!((t) & cJSON_StringIsConst))
+#define RECURSES(n) (OWNS_VS(__CPROVER_old((n)->type)) && __CPROVER_old((n)->child) != NULL)
+CJSON_PUBLIC(void) cJSON_Delete(cJSON *item)
+__CPROVER_requires((global_hooks.deallocate == vf_free || global_hooks.deallocate == vf_libc_free) && g_tok1 != NULL && g_tok2 != NULL && g_dlogn < 3)
+__CPROVER_requires(IS_TOK(item) || item == NULL || (g_dlogn == 0 && DNODE_OK(item) && (item->next == NULL || (DNODE_OK(item->next) && item->next->next == NULL))))
+/* abstract subtree: only logged */
+__CPROVER_ensures(IS_TOK(item) ==> (g_dlogn == __CPROVER_old(g_dlogn) + 1 && g_dlog[__CPROVER_old(g_dlogn)] == item))
+__CPROVER_ensures(item == NULL ==> g_dlogn == __CPROVER_old(g_dlogn)) /*@C07*/
+/* every node of the chain is released; its value string exactly when the node is not a reference; its key exactly when the key is not constant */
+__CPROVER_ensures((!IS_TOK(item) && item != NULL) ==> __CPROVER_was_freed(item)) /*@C07*/
+__CPROVER_ensures((!IS_TOK(item) && item != NULL && __CPROVER_old(item->valuestring) != NULL) ==> (__CPROVER_was_freed(__CPROVER_old(item->valuestring)) == OWNS_VS(__CPROVER_old(item->type)))) /*@C07*/
+__CPROVER_ensures((!IS_TOK(item) && item != NULL && __CPROVER_old(item->string) != NULL) ==> (__CPROVER_was_freed(__CPROVER_old(item->string)) == OWNS_KEY(__CPROVER_old(item->type)))) /*@C07*/
+/* the children are deleted recursively exactly when the node owns them (never through a reference), once, in chain order */
+__CPROVER_ensures((!IS_TOK(item) && item != NULL && __CPROVER_old(item->next) == NULL) ==> (g_dlogn == (RECURSES(item) ? 1 : 0) && (!RECURSES(item) || g_dlog[0] == __CPROVER_old(item->child)))) /*@C07*/
+__CPROVER_assigns(g_dlogn, __CPROVER_object_whole(g_dlog), GHOST_ALLOC)
+__CPROVER_frees(!IS_TOK(item) && item != NULL: item, item->valuestring, item->string; !IS_TOK(item) && item != NULL && item->next != NULL: item->next, item->next->valuestring, item->next->string);
 #endif
